@@ -193,6 +193,7 @@ type BloomAbs struct {
 	Bits    []uint64 // sorted indexes of set bits
 	BsLen   uint64   // number of bits held by the backing bitset
 	Words   []uint64 // mem only: raw words
+	Raw     []byte   // redis only: the bitmap string as stored in Redis
 }
 
 func bloomAbsMem(f *gostatix.BloomFilter) (BloomAbs, error) {
@@ -272,6 +273,7 @@ func bloomAbsRedis(f *gostatix.BloomFilter) (BloomAbs, error) {
 	for i := range body {
 		body[i] = revBits(body[i])
 	}
+	a.Raw = body
 	// redis bit n = byte n/8, bit 7-n%8
 	for n := 0; n < len(body)*8; n++ {
 		if body[n/8]>>(7-uint(n%8))&1 == 1 {
